@@ -34,6 +34,8 @@ func init() {
 	addSelfTests("C20",
 		mutation{"no-validation", "kv/aof/kv.go", "			if mutError = d.validateMutation(m.mut); mutError != nil {\n				// rejected by the current state: it must never reach the log\n			} else if logError := d.appendLog(m.mut); logError == nil {", "			if logError := d.appendLog(m.mut); logError == nil {", "wal-discipline"},
 		mutation{"validation-wrong-kind", "kv/aof/mutation.go", "	case proto.MutationType_PREFIX_APPEND:\n		exists, err", "	case proto.MutationType_PREFIX_REMOVE:\n		exists, err", "wal-discipline"},
+		mutation{"validation-by-if", "kv/aof/mutation.go", "	switch mut.GetType() {\n	case proto.MutationType_PREFIX_APPEND:\n		exists, err := d.memKv.PrefixContains(context.Background(), mut.GetKey(), mut.GetValue())\n		if err != nil {\n			return err\n		}\n		if exists {\n			return chord.ErrKVPrefixConflict\n		}\n	}\n	return nil", "	if mut.GetType() != proto.MutationType_PREFIX_APPEND {\n		return nil\n	}\n	exists, err := d.memKv.PrefixContains(context.Background(), mut.GetKey(), mut.GetValue())\n	if err != nil {\n		return err\n	}\n	if exists {\n		return chord.ErrKVPrefixConflict\n	}\n	return nil", "!wal-discipline"},
+		mutation{"validation-ignores-answer", "kv/aof/mutation.go", "		if exists {\n			return chord.ErrKVPrefixConflict\n		}", "		_ = exists", "wal-discipline"},
 		mutation{"counter-before-write", "kv/aof/log.go", "	if err := d.log.Write(d.counter, logBuf); err != nil {", "	d.counter += 1\n	if err := d.log.Write(d.counter-1, logBuf); err != nil {", "counter"},
 		mutation{"rollback-wrong-index", "kv/aof/log.go", "	if err := d.log.TruncateBack(d.counter - 1); err != nil {", "	if err := d.log.TruncateBack(d.counter); err != nil {", "rollback"},
 		mutation{"cleanup-in-log-dir", "kv/aof/kv.go", "	l, err := wal.Open(logPath(cfg.DataDir), &wal.Options{", "	if stale, _ := filepath.Glob(filepath.Join(logPath(cfg.DataDir), \"*.*\")); len(stale) > 0 {\n		for _, f := range stale {\n			os.Remove(f)\n		}\n	}\n	l, err := wal.Open(logPath(cfg.DataDir), &wal.Options{", "log-dir-owner"},
@@ -109,25 +111,17 @@ func runC20(c *Ctx) {
 	c.Floor("appendLog call sites in the writer", len(appendCalls), 1)
 	// kinds and the memory method applied
 	kinds := map[string]string{}
-	ast.Inspect(hm.Body, func(n ast.Node) bool {
-		cc, ok := n.(*ast.CaseClause)
-		if !ok {
-			return true
+	// read from the path facts at each store call (switch and if-chain alike)
+	isKind := func(e ast.Expr) bool { return hm.Prov(e) == "param#0.GetType()" }
+	for _, cl := range hm.Calls(false, func(cl *ast.CallExpr) bool {
+		se, ok := cl.Fun.(*ast.SelectorExpr)
+		return ok && hm.Prov(se.X) == "recv.memKv"
+	}) {
+		pos, _ := hm.FactsAt(cl).EqConsts(hm, isKind)
+		for _, k := range pos {
+			kinds[k] = cl.Fun.(*ast.SelectorExpr).Sel.Name
 		}
-		for _, e := range cc.List {
-			for _, st := range cc.Body {
-				ast.Inspect(st, func(m ast.Node) bool {
-					if cl, ok := m.(*ast.CallExpr); ok {
-						if se, ok := cl.Fun.(*ast.SelectorExpr); ok && hm.Prov(se.X) == "recv.memKv" {
-							kinds[constName(hm, e)] = se.Sel.Name
-						}
-					}
-					return true
-				})
-			}
-		}
-		return true
-	})
+	}
 	c.Floor("mutation kinds applied by handleMutation", len(kinds), 6)
 	nrej := 0
 	var kindNames []string
@@ -267,52 +261,47 @@ func runC20(c *Ctx) {
 	c.Ob("log-dir-owner", "kv/aof#no-foreign-file-mutation", token.NoPos, nfs == 0, fmt.Sprintf("%d file-system mutating calls outside the WAL library in package kv/aof", nfs))
 }
 
-// validatorRejects: v has a switch case for kind in which a read-only inner-store call
-// decides a return of the sentinel.
+// validatorRejects: v returns the sentinel on a path on which the mutation kind is known
+// to be `kind` and a read-only inner-store call was answered "true" (or "ok" with a
+// non-trivial comparison) - read from the path facts at the return, so a switch arm, an
+// if-chain and an early return are all accepted.
 func validatorRejects(v *Fn, kind, sentinel string) bool {
-	found := false
-	ast.Inspect(v.Body, func(n ast.Node) bool {
-		cc, ok := n.(*ast.CaseClause)
-		if !ok {
-			return true
+	isKind := func(e ast.Expr) bool { return strings.HasSuffix(v.Prov(e), ".GetType()") }
+	for _, r := range v.Returns() {
+		if len(r.Results) == 0 || v.Prov(r.Results[len(r.Results)-1]) != "global:spec/chord."+sentinel {
+			continue
 		}
+		fs := v.FactsAt(r)
+		pos, _ := fs.EqConsts(v, isKind)
 		hit := false
-		for _, e := range cc.List {
-			if constName(v, e) == kind {
+		for _, k := range pos {
+			if k == kind {
 				hit = true
 			}
 		}
 		if !hit {
+			continue
+		}
+		// the return depends on a read of the inner store
+		dep := fs.Has(func(fa *Fact) bool {
+			if fa.Call == nil || (fa.Kind != FTrue && fa.Kind != FNonNil) {
+				return false
+			}
+			se, ok := fa.Call.Fun.(*ast.SelectorExpr)
+			if !ok || v.Prov(se.X) != "recv.memKv" {
+				return false
+			}
+			switch se.Sel.Name {
+			case "PrefixContains", "Get", "PrefixList":
+				return true
+			}
+			return false
+		})
+		if dep {
 			return true
 		}
-		hasRead, hasRet := false, false
-		for _, st := range cc.Body {
-			ast.Inspect(st, func(m ast.Node) bool {
-				switch x := m.(type) {
-				case *ast.CallExpr:
-					if se, ok := x.Fun.(*ast.SelectorExpr); ok && v.Prov(se.X) == "recv.memKv" {
-						switch se.Sel.Name {
-						case "PrefixContains", "Get", "PrefixList":
-							hasRead = true
-						}
-					}
-				case *ast.ReturnStmt:
-					if len(x.Results) > 0 && v.Prov(x.Results[len(x.Results)-1]) == "global:spec/chord."+sentinel {
-						// the return must depend on the read
-						if v.FactsAt(x).Has(func(fa *Fact) bool { return fa.Kind == FTrue || (fa.Kind == FCmp && fa.Truth) }) {
-							hasRet = true
-						}
-					}
-				}
-				return true
-			})
-		}
-		if hasRead && hasRet {
-			found = true
-		}
-		return true
-	})
-	return found
+	}
+	return false
 }
 
 // ---------------------------------------------------------------------------------------
